@@ -44,9 +44,30 @@ def signature(test, exn, rep, src):
     return "crash:%s:%s:%s" % (test, exn, shape)
 
 
+def _strs(v):
+    return isinstance(v, list) and all(isinstance(x, str) for x in v)
+
+
+SCHEMAS = {
+    "shell_injection": lambda d: set(d) == {"subprocess", "shell", "no_shell"} and all(_strs(v) for v in d.values()),
+    "markupsafe_xss": lambda d: set(d) <= {"extend_markup_names", "allowed_calls"} and all(_strs(v) for v in d.values()),
+    "hardcoded_tmp_directory": lambda d: set(d) == {"tmp_dirs"} and _strs(d["tmp_dirs"]),
+    "ssl_with_bad_version": lambda d: set(d) == {"bad_protocol_versions"} and _strs(d["bad_protocol_versions"]),
+    "try_except_pass": lambda d: set(d) == {"check_typed_exception"} and isinstance(d["check_typed_exception"], bool),
+    "try_except_continue": lambda d: set(d) == {"check_typed_exception"} and isinstance(d["check_typed_exception"], bool),
+    "assert_used": lambda d: set(d) == {"skips"} and _strs(d["skips"]),
+    "weak_cryptographic_key": lambda d: len(d) == 6 and all(k.startswith("weak_key_size_") and type(v) is int for k, v in d.items()),
+}
+
+
+def config_wellformed(cfg):
+    """Every section is one of the documented settings blocks, complete and of the documented types."""
+    return isinstance(cfg, dict) and all(k in SCHEMAS and isinstance(v, dict) and SCHEMAS[k](v) for k, v in cfg.items())
+
+
 def oracle(p, o):
     out = []
-    if p.get("config"):
+    if p.get("config") and not config_wellformed(p["config"]):
         return out                      # the statement is about the built-in checks on valid Python; misconfiguration is C13's
     for test, exn, rep in o["errors"]:
         out.append({"what": "check %s raised %s on a syntactically valid program (internal error logged, findings of this check for the node lost)" % (test, rep[:120]),
